@@ -22,15 +22,15 @@ pub fn unit_tables() -> (Vec<(&'static str, f64)>, Vec<(&'static str, f64)>) {
     crate::inner_op::verif::unit_tables()
 }
 
-/// One transition of the pipeline stack machine: execute the `stack`
-/// step given by `definition` in direction `direction` on `stack` and `operands`
+/// One transition of the pipeline stack machine: execute the instantiated `stack`
+/// step `op` in direction `direction` on `stack` and `operands`
 pub fn stack_step(
-    definition: &str,
+    op: &Op,
     direction: Direction,
     stack: &mut Vec<Vec<f64>>,
     operands: &mut dyn CoordinateSet,
-) -> Result<usize, Error> {
-    crate::inner_op::verif::stack_step(definition, direction, stack, operands)
+) -> usize {
+    crate::inner_op::verif::stack_step(op, direction, stack, operands)
 }
 
 static SCHED_HOOK: RwLock<Option<fn(&'static str)>> = RwLock::new(None);
